@@ -1654,7 +1654,11 @@ class RunA:
                 self.check_refs_against_pristine(helper, conns)
                 helper = None
             self.vtime = 0
+            beats = 0
             while heap:
+                beats += 1
+                if beats % 256 == 0:
+                    core.heartbeat()   # (between library calls only)
                 now, _, ci = heapq.heappop(heap)
                 self.vtime = now
                 c = conns[ci]
